@@ -17,7 +17,9 @@ def validate(ck, files):
 
 
 SYS_ASSUMPTIONS = [
-    'System.tla composes the frozen TLA+ instruction semantics with TimerOps and the ICU as teakra.cpp wires them; MMIO '
+    'System.tla composes the frozen TLA+ instruction semantics with TimerOps, the ICU, both audio ports (Btdmp) and both '
+    'mailbox blocks (Apbp) as teakra.cpp wires them, plus the host API between slices; MMIO '
     'registers of peripherals not modelled there make the specification decline a trace rather than guess',
     'guest programs come from templates (interrupt handlers, timer/ICU programming, idle and counting loops, calls, '
-    'hardware loops, context switches) with random parameters; TLC, CommunityModules and g++ are trusted']
+    'hardware loops, context switches, mailbox echo/poll/mask loops, audio queue feeding; the audio transmit period, which '
+    'has no register, is shortened at construction) with random parameters; TLC, CommunityModules and g++ are trusted']
